@@ -65,10 +65,18 @@ type Net struct {
 	Mangle func(ev *Event) [][]byte
 	// SrcRewrite, if set, returns the apparent source address for a datagram ("" = real).
 	SrcRewrite func(ev *Event) string
+	// FaultFn, if set, decides the fate of a datagram dynamically (overrides Faults when it
+	// returns non-nil). It runs under the network lock and must not call back into the Net.
+	FaultFn func(ev *Event) *Fault
 	// Blocked[from] = true silently discards everything sent by that endpoint.
 	Blocked map[string]bool
 	// Redirect maps a destination address to the endpoint address that really receives it.
 	Redirect map[string]string
+
+	// MaxHold bounds how long a held (swap/hold) datagram is delayed when no later datagram
+	// of its direction releases it: a delay is finite by definition. Default 2.5 s virtual.
+	MaxHold time.Duration
+	heldSeq int
 
 	counts   map[string]int
 	held     map[string][]heldDgram
@@ -80,6 +88,7 @@ type heldDgram struct {
 	until int
 	to    string
 	d     dgram
+	id    int
 }
 
 type watcher struct {
@@ -194,6 +203,29 @@ func (n *Net) resolve(to string) string {
 	return to
 }
 
+func (n *Net) releaseID(key string, id int) {
+	n.mu.Lock()
+	var found *heldDgram
+	hs := n.held[key]
+	for i := range hs {
+		if hs[i].id == id {
+			h := hs[i]
+			found = &h
+			n.held[key] = append(append([]heldDgram(nil), hs[:i]...), hs[i+1:]...)
+
+			break
+		}
+	}
+	var ep *Endpoint
+	if found != nil {
+		ep = n.eps[n.resolve(found.to)]
+	}
+	n.mu.Unlock()
+	if found != nil && ep != nil {
+		ep.deliver(found.d)
+	}
+}
+
 // FlushHeld releases every held datagram now.
 func (n *Net) FlushHeld() {
 	n.mu.Lock()
@@ -248,6 +280,11 @@ func (n *Net) send(from Addr, to string, data []byte) {
 	if fl := n.Faults[key]; idx < len(fl) {
 		f = fl[idx]
 	}
+	if n.FaultFn != nil && payloads != nil {
+		if ff := n.FaultFn(&ev); ff != nil {
+			f = *ff
+		}
+	}
 	dst := n.eps[n.resolve(to)]
 	mk := func(p []byte) dgram { return dgram{append([]byte(nil), p...), Addr(ev.Src)} }
 	if payloads != nil {
@@ -269,7 +306,14 @@ func (n *Net) send(from Addr, to string, data []byte) {
 			ev.Verdict += "+hold"
 			n.effFault++
 			for _, p := range payloads {
-				n.held[key] = append(n.held[key], heldDgram{until, to, mk(p)})
+				n.heldSeq++
+				id := n.heldSeq
+				n.held[key] = append(n.held[key], heldDgram{until, to, mk(p), id})
+				mh := n.MaxHold
+				if mh <= 0 {
+					mh = 2500 * time.Millisecond
+				}
+				time.AfterFunc(mh, func() { n.releaseID(key, id) })
 			}
 		default:
 			for _, p := range payloads {
@@ -468,6 +512,7 @@ func (n *Net) Heal() {
 	n.Faults = map[string][]Fault{}
 	n.Blocked = map[string]bool{}
 	n.Mangle = nil
+	n.FaultFn = nil
 	n.mu.Unlock()
 	n.FlushHeld()
 }
